@@ -125,13 +125,14 @@ func (eng *Engine) verifyFunction(fn *ssa.Function, c *FuncContract, checkLocks 
 			e.assumeLemma(st, env, u)
 		}
 		for _, rq := range c.Requires {
+			// requires held(l): put the lock into the symbolic lock set first,
+			// so that the clause itself evaluates to true at entry
+			e.requireLocks(st, env, rq.Expr)
 			t, err := env.evalBool(rq.Expr)
 			if err != nil {
 				e.specErr(err)
 				continue
 			}
-			// requires held(l): put the lock into the symbolic lock set
-			e.requireLocks(st, env, rq.Expr)
 			st.assert(t)
 		}
 		if len(c.Requires) > 0 || len(c.Uses) > 0 {
